@@ -20,7 +20,7 @@ PROP = {
         "the first response of a logical call always carries the sequence id as its transaction id (HAProxy assigns the unique id to both when the client sends no x-lunar-sequence-id)",
         "where the statement is silent the oracle admits both readings: a new call on an id whose previous call was abandoned mid-way may continue the count or start afresh; an unsolicited in-condition response on a forgotten sequence may or may not be retried; policy-mode state may be forgotten once a write of it is >= 31 s old (30 s transaction timeout + 1 s buffer, the remedy's minimum lifetime) and need never be",
         "per sequence id responses are sequential (the next response of a sequence starts after the previous one left its cool-down); different sequences overlap",
-        "flows mode: one user flow, one Retry processor; in-memory flow context",
+        "flows mode: one user flow, one Retry processor; in-memory flow context; three attempts in four send their request message through the engine before the response message (as the proxy does for every attempt, retried ones included), the others only the response",
     ],
     "units": [
         {"pkg": "c17", "test": "TestFlowsRetryBound", "quick": 1500, "thorough": 20000, "shards": 16},
